@@ -210,3 +210,57 @@ Print Assumptions C01_error_iff_state_disallows.
 Print Assumptions C01_reset_error_iff_state_disallows.
 Print Assumptions C01_error_iff_state_disallows_call.
 Print Assumptions C01_example_refusal_nonvacuous.
+
+(** ---- tie of the serialised transitions of the model to nextline/imp.py + nextline/main.py ----
+    Gen/ImpSkeleton.v is REGENERATED from the source by translate/imp_skeleton.py at every check;
+    Life/ImpTie.v interprets it ([exec]: an oracle decides at every await whether it raises and
+    the value of every untracked condition).  All statements are for every oracle. *)
+From Coq Require Import String.
+From NL Require Import Life.ImpSyntax Gen.ImpSkeleton Life.ImpTie.
+
+(** no transition is triggered outside the lock (so none can cancel another half way), the lock
+    is released on every path *)
+Theorem C01_tie_lock_discipline : forall ob m, In m (names ob) -> forall st cl o,
+  let x := exec ob m st cl o in
+  res_of x <> RBad /\ lock_ok false (trace_of x) = true /\ lk_held (cfg_of x) = false.
+Proof. exact lock_discipline. Qed.
+
+(** each API call fires the trigger whose transition the model puts it in *)
+Theorem C01_tie_call_trigger : forall c m, In m (nl_methods_of c) ->
+  code_first_trigger true false m = model_first_trigger st_initialized c /\
+  (c = CStart \/ c = CClose -> code_first_trigger false false m = model_first_trigger st_created c).
+Proof. exact call_trigger_agrees. Qed.
+
+(** the tests and assignments of `_started` / `_closed` are in one atomic segment ([do_call]) *)
+Theorem C01_tie_flags_atomic : forall m, In m (names ONextline) -> forall st cl o,
+  sets_atomic false (trace_of (exec ONextline m st cl o)) = true.
+Proof. exact flags_set_atomically. Qed.
+
+(** a second start() returns at the `_started` guard *)
+Theorem C01_tie_second_start_does_nothing : forall cl o,
+  exec ONextline "start"%string true cl o =
+    (RNorm, mkCfg true cl false, [EEnter ONextline "start"%string; EGuard (GFlag FStarted) true]).
+Proof. exact second_start_does_nothing. Qed.
+
+(** Imp.aopen: the `init` hook, then the `initialize` transition, under the lock *)
+Theorem C01_tie_aopen_shape :
+  trace_of (exec OImp "aopen"%string false false []) =
+    [EEnter OImp "aopen"%string; EAcq true; EHook false "init"%string true; ETrig TAopen true; ERel].
+Proof. exact aopen_shape. Qed.
+
+(** Nextline reaches the machine only through Imp's methods *)
+Theorem C01_tie_only_through_imp :
+  forallb (fun x => no_direct (snd x)) nextline_methods = true /\
+  forallb flag_sets_ok nextline_methods = true /\
+  forallb (fun x => locked_text false (snd x)) imp_methods = true /\
+  imp_locks = ["_lock"%string] /\
+  (forall a b c d, nextline_init_flags =
+     [(FStarted, nl_started (init_state a b c d)); (FClosed, nl_closed (init_state a b c d))]).
+Proof. exact nextline_reaches_machine_only_through_imp. Qed.
+
+Print Assumptions C01_tie_lock_discipline.
+Print Assumptions C01_tie_call_trigger.
+Print Assumptions C01_tie_flags_atomic.
+Print Assumptions C01_tie_second_start_does_nothing.
+Print Assumptions C01_tie_aopen_shape.
+Print Assumptions C01_tie_only_through_imp.
